@@ -336,8 +336,7 @@ def _tsl_str(ts, off):
 
 
 def memref_type(shape, bits, lay):
-    dims = "x".join("?" if x is None else str(x) for x in shape)
-    base = f"{dims}xi{bits}"
+    base = "x".join(["?" if x is None else str(x) for x in shape] + [f"i{bits}"])   # rank 0: memref<i32>
     if lay[0] == "none":
         return f"memref<{base}>"
     if lay[0] == "strided":
@@ -550,7 +549,8 @@ def coq_mlayout(lay):
 
 
 def case_static(case):
-    return all(x is not None for x in case["shape"]) and all(
+    # a zero-sized dimension is treated by the pass as a dynamic one (`[x.data] if x.data > 0 else [None]`)
+    return all(x is not None and x > 0 for x in case["shape"]) and all(
         (lay[0] == "none") or (lay[0] == "strided" and lay[2] is not None and all(x is not None for x in lay[1]))
         or (lay[0] == "tsl" and lay[2] is not None and is_tsl_static(lay[1])) for lay in (case["src"], case["dst"]))
 
@@ -864,4 +864,11 @@ CORPUS = [
     {"shape": [2, 3], "bits": 16, "mode": "corpus", "rshape": [2, 3], "src": ("none",), "dst": ("none",)},
     {"shape": [4, 6], "bits": 8, "mode": "corpus", "rshape": [4, 6],
      "src": ("none",), "dst": ("tsl", [[(12, 2), (1, 2)], [(4, 3), (2, 2)]], 0)},
+    # rank 0 (audit): get_total_size_op asserts (`total_size_op is not None`); the model says None
+    {"shape": [], "bits": 32, "mode": "corpus", "rshape": [], "src": ("none",), "dst": ("none",)},
+    # zero-sized dimensions (audit): `[x.data] if x.data > 0 else [None]` makes the bound dynamic; the generators never
+    # draw a 0, the model (shape_tile_bounds) does have the branch
+    {"shape": [0, 3], "bits": 8, "mode": "corpus", "rshape": [0, 3], "src": ("strided", [3, 1], 0), "dst": ("strided", [4, 1], 2)},
+    {"shape": [2, 0], "bits": 16, "mode": "corpus", "rshape": [2, 0], "src": ("none",), "dst": ("strided", [1, 2], 0)},
+    {"shape": [3, 0, 2], "bits": 32, "mode": "corpus", "rshape": [3, 0, 2], "src": ("strided", [1, 3, 3], 0), "dst": ("none",)},
 ]
